@@ -150,7 +150,37 @@ def coinswap_big_replay(check, pid, path, work, seed):
     return 0
 
 
+def coinswap_lemmas(check, pid, tier, seed, work):
+    """DESIGN 4.4: unbounded lemmas — for ALL natural reserves, amounts and fees the
+    transcribed price functions satisfy the C01 leg clauses (Apalache, length 0).
+    A timeout is 'not proved' and changes nothing; a refuted lemma means the
+    specification's own formulas break the clause and is reported as inconclusive."""
+    sub = os.path.join(work, "lemmas")
+    os.makedirs(sub, exist_ok=True)
+    vlib.copy_specs(sub)
+    proved, notproved = [], []
+    for mod, inv in (("CoinswapLemmas.tla", "Lemma_InputPrice"), ("CoinswapLemmas.tla", "Lemma_OutputPrice"),
+                     ("CoinswapLemmas2.tla", "Lemma_AddLiquidity"), ("CoinswapLemmas2.tla", "Lemma_RemoveLiquidity"),
+                     ("CoinswapLemmas2.tla", "Lemma_AddUnilateral"), ("CoinswapLemmas2.tla", "Lemma_RemoveUnilateral")):
+        try:
+            p = subprocess.run(["apalache-mc", "check", "--length=0", "--init=Init", "--next=Next", f"--inv={inv}",
+                                f"--out-dir={os.path.join(sub, '_apalache-out')}", mod], cwd=sub,
+                               capture_output=True, text=True, timeout=240)
+            out = p.stdout + p.stderr
+        except subprocess.TimeoutExpired:
+            out = ""
+        if "The outcome is: NoError" in out:
+            proved.append(inv)
+        elif "The outcome is: Error" in out:
+            raise Inconclusive(f"unbounded lemma {inv} is refuted: the transcribed price formula violates a C01 leg clause")
+        else:
+            notproved.append(inv)
+    log(f"[lemmas] proved for all naturals (Apalache/Z3): {proved}; not proved: {notproved}")
+    return [], {"lemmas_proved": proved, "lemmas_not_proved": notproved}
+
+
 if "C01" in props.PROPS:
+    props.PROPS["C01"].post.append(coinswap_lemmas)
     props.PROPS["C01"].post.append(coinswap_big)
     props.PROPS["C01"].big_replay = coinswap_big_replay
 
